@@ -105,6 +105,8 @@ structure RSym where
   isTerm : Bool
   content : Bool
   label : Option String
+  /-- `name?=X` (`Assignment.is_bool`): recorded by the front-end, read by NOTHING in types / actions / builder -/
+  isBool : Bool := false
   deriving Repr, DecidableEq, Inhabited
 
 /-- a production of `grammar.productions()`; `rnLen` = `production_rn_lengths[p]` (= `rhs.length`
@@ -382,5 +384,22 @@ def symbolTypes (fx : Fixes) (g : AGrammar) : Option (List SymType) :=
   (findRecursions (refGraph ts) g.start).map (fun st => ts.map (applyFlags st.flags))
 
 def typeOf (ts : List SymType) (n : String) : Option SymType := ts.find? (·.name == n)
+
+/-! ## `?=` assignments: presence -/
+
+/-- the members (struct fields) the value of a choice has -/
+def Choice.memberNames (c : Choice) : List String :=
+  match c.kind with
+  | .struct _ fs => fs.map (·.name)
+  | _ => []
+
+/-- names bound with `?=` to a symbol WITHOUT content (string-match terminal): `rhs_with_content` drops the symbol,
+so no member is generated for it — the presence the assignment asks for is lost (finding C10-N1) -/
+def AProd.lostBools (p : AProd) : List String :=
+  p.rhs.filterMap (fun r => if r.isBool && !r.content then r.label else none)
+
+/-- class predicate of C10-N1: some production of a reachable rule has a `?=` assignment on a symbol without content -/
+def hasLostBool (g : AGrammar) : Bool :=
+  g.prods.any (fun p => !p.lostBools.isEmpty && g.nts.any (fun n => n.name == p.nt && n.reach))
 
 end Rustemo.Ast
